@@ -21,31 +21,15 @@ func NewPreviewReader(l zerolog.Logger) previewReader {
 }
 
 func (pr *previewReader) RenderPreview(r io.Reader, h meta.PreviewHeader) error {
-	img := make([]byte, h.Size)
-	offset := uint32(0)
-	maxSize := uint32(2048)
-	for {
-		maxOffset := offset + maxSize
-		if h.Size < maxOffset {
-			maxOffset = h.Size
-		}
-
-		readLength, err := r.Read(img[offset:maxOffset])
-		if err != nil {
-			if err == io.EOF {
-				break
-			}
-			pr.logError(err).
-				Uint32("offset", offset).
-				Uint32("maxOffset", maxOffset).
-				Msgf("error read preview image")
-			return err
-		}
-		if readLength == 0 {
-			break
-		}
-
-		offset += uint32(readLength)
+	// h.Size comes from the file and may be far larger than what the file holds:
+	// read at most h.Size bytes and let the buffer grow with the data that arrives.
+	img, err := io.ReadAll(io.LimitReader(r, int64(h.Size)))
+	if err != nil {
+		pr.logError(err).
+			Uint32("offset", uint32(len(img))).
+			Uint32("maxOffset", h.Size).
+			Msgf("error read preview image")
+		return err
 	}
 
 	pr.PreviewImage = img
